@@ -5,9 +5,22 @@ package afm
 // Machine-checked contracts for package afm (read by /verif/govc only;
 // never compiled into a normal build).
 
+func kernPairWF(k *KernPair) bool {
+	return k != nil
+}
+
+//@ valueinv *KernPair kernPairWF
+
 //@ sweep C01 read.go
+//@ sweep C10 write.go
 
 //@ func Read
 //@ requires fd != nil
 //@ loop 2 invariant res != nil && res.Glyphs != nil && len(res.Encoding) == 256
 //@ loop 3 invariant res != nil && res.Glyphs != nil && len(res.Encoding) == 256 && ligTmp != nil
+
+// C13: a failed write is never swallowed by the AFM writer
+//@ func (*Metrics).Write
+//@ safety C10
+//@ requires m != nil && w != nil
+//@ ensures [C13.afm.write] !old(wfault()) && result == nil ==> !wfault()
